@@ -102,3 +102,30 @@ def groupsOf : List Tok → Fin → List Nat
 def slice (s : List Char) (a b : Nat) : List Char := (s.drop a).take (b - a)
 
 end Shk.Tpl
+
+namespace Shk.Tpl
+open Shk.Re
+
+/-- put a literal character in front of a template -/
+def consLit (c : Char) : List Tok × Fin → List Tok × Fin
+  | (.lit w :: T, f) => (.lit (c :: w) :: T, f)
+  | (T, f) => (.lit [c] :: T, f)
+
+/-- read a template off a regexp (the inverse of `compile`); `none` when the regexp is not in the family -/
+def decompile : Re → Option (List Tok × Fin)
+  | .eot => some ([], .eot)
+  | .cat (.group i nm (.star true .any)) .eot => some ([], .rest i nm)
+  | .cat (.star true (.cls ws)) .eot => if ws = WS then some ([], .wsEot) else none
+  | .cat (.plus true (.cls ws)) K =>
+    if ws = WS then (decompile K).map fun p => (.ws :: p.1, p.2) else none
+  | .cat (.group i nm (.plus true (.cls ns))) K =>
+    if ns = NS then (decompile K).map fun p => (.word i nm :: p.1, p.2) else none
+  | .cat (.chr c) K =>
+    if (Char.ofNat c).toNat = c then (decompile K).map (consLit (Char.ofNat c)) else none
+  | _ => none
+
+def templateOf : Re → Option (List Tok × Fin)
+  | .cat .bot r => decompile r
+  | _ => none
+
+end Shk.Tpl
